@@ -368,7 +368,6 @@ class Model(object):
                 if dep not in evaluated:
                     evaluated[dep] = self._get_value(dep, evaluated)
             expr = expr.xreplace(evaluated)
-            deps = expr.atoms(Variable)
 
         return float(expr)
 
